@@ -56,15 +56,22 @@ def Series(params: SeriesParams) -> h.Module:
     unit_conns = {port.name: port for port in par_ports}
 
     # Create the internal series-connected signals, and concatenate them with the series ports
-    i = m.add(h.Signal(name="i", width=params.nser - 1))
+    i = m.add(h.Signal(name=_unused_name("i", m), width=params.nser - 1))
     unit_conns[series_conns[0].name] = h.Concat(series_conns[0], i)
     unit_conns[series_conns[1].name] = h.Concat(i, series_conns[1])
 
     # Create an array of unit instances
-    m.add(params.nser * params.unit(**unit_conns), name="units")
+    m.add(params.nser * params.unit(**unit_conns), name=_unused_name("units", m))
 
     # And return the module
     return m
+
+
+def _unused_name(name: str, m: h.Module) -> str:
+    # A name for a generator's own signal or instance, which must not take over that of a (cloned) unit port
+    while name in m.namespace:
+        name += "_"
+    return name
 
 
 def _seriesconns(m: h.Module, conns: SeriesConns) -> Tuple[h.Signal, h.Signal]:
@@ -130,7 +137,7 @@ def Wrapper(m: h.Instantiable) -> h.Module:
     wrapper_io = {p.name: wrapper.add(deepcopy(p)) for p in io(m).values()}
 
     # Create the inner instance
-    wrapper.add(h.Instance(name="inner", of=m)(**wrapper_io))
+    wrapper.add(h.Instance(name=_unused_name("inner", wrapper), of=m)(**wrapper_io))
 
     # And return the wrapper
     return wrapper
